@@ -15,6 +15,7 @@ use std::collections::BTreeMap;
 use std::sync::Arc;
 
 const RP: &str = "example.com";
+const U2F_APP: [u8; 32] = [0x31; 32];
 
 #[derive(Clone, Debug, Serialize, Deserialize, PartialEq, Eq, Hash)]
 pub struct Case {
@@ -125,6 +126,14 @@ where
                 })
                 .map_err(byte),
         );
+    }
+    if request.starts_with("make:u2f") {
+        // U2F registration: the caller chooses the key handle - a fresh one, or one that is already
+        // the id of a credential held for ANOTHER relying party (the store is keyed by id)
+        use passkey_authenticator::U2fApi;
+        let handle = if request.ends_with("clash") { cred_id(1) } else { vec![0x77; 20] };
+        let req = passkey_types::u2f::RegisterRequest { challenge: [2; 32], application: U2F_APP };
+        return Res::Make(U2fApi::register(&mut auth, req, &handle).await.map(|r| r.key_handle.to_vec()).map_err(|_| 0xFF));
     }
     if request.starts_with("make") {
         let exclude = match request.as_str() {
@@ -260,6 +269,15 @@ pub fn eval(c: &Case) -> (Vec<Finding>, String, usize) {
             bad("stuck", format!("the ceremony is pending after {p} polls and nothing will wake it"));
             return (fs, "stuck".into(), *p);
         }
+        Polled::Cancelled { polls: p } if c.request.starts_with("make:u2f") => {
+            polls = *p;
+            outcome = "cancelled".into();
+            if o.after != o.before {
+                if let Err(e) = u2f_store_ok(&o.before, &o.after, c.request.ends_with("clash")) {
+                    bad("cancelled-registration-left-partial-state", e);
+                }
+            }
+        }
         Polled::Cancelled { polls: p } => {
             polls = *p;
             outcome = "cancelled".into();
@@ -281,6 +299,19 @@ pub fn eval(c: &Case) -> (Vec<Finding>, String, usize) {
                     outcome = format!("make:err:{b:02x}");
                     if o.after != o.before {
                         bad("failed-registration-changed-store", format!("registration returned {b:#04x} but the store went {} → {} records", o.before.len(), o.after.len()));
+                    }
+                }
+                Res::Make(Ok(id)) if c.request.starts_with("make:u2f") => {
+                    outcome = "make:ok".into();
+                    if saves_ok.is_empty() {
+                        bad("success-without-accepted-save", "the response exists although no save_credential call returned Ok".into());
+                    }
+                    let clash = c.request.ends_with("clash");
+                    if *id != if clash { cred_id(1) } else { vec![0x77; 20] } {
+                        bad("u2f-key-handle-not-echoed", format!("returned key handle {}", hex(id)));
+                    }
+                    if let Err(e) = u2f_store_ok(&o.before, &o.after, clash) {
+                        bad("success-but-store-does-not-hold-the-registration", e);
                     }
                 }
                 Res::Make(Ok(id)) => {
@@ -341,6 +372,28 @@ pub fn eval(c: &Case) -> (Vec<Finding>, String, usize) {
         }
     }
     (fs, outcome, polls)
+}
+
+/// After a U2F registration (fresh handle, or a handle that was another RP's credential id): exactly
+/// one record has the handle as id, it is bound to base64url(application) with a valid key, and every
+/// other record is as before.
+fn u2f_store_ok(before: &[Rec], after: &[Rec], clash: bool) -> Result<(), String> {
+    let handle = if clash { cred_id(1) } else { vec![0x77; 20] };
+    let want_rp = crate::oracles::b64::url_nopad(&U2F_APP);
+    let mine: Vec<&Rec> = after.iter().filter(|r| r.id == handle).collect();
+    if mine.len() != 1 {
+        return Err(format!("{} records with the key handle as id", mine.len()));
+    }
+    if mine[0].rp != want_rp {
+        return Err(format!("the record with the key handle is bound to {:?}, not to the application", mine[0].rp));
+    }
+    if !matches!(mine[0].d.as_ref().map(|d| crate::oracles::rp::public_of(d)), Some(Ok(_))) {
+        return Err("the stored record has no valid private key".into());
+    }
+    if !before.iter().filter(|b| b.id != handle).all(|b| after.contains(b)) || after.len() != before.iter().filter(|b| b.id != handle).count() + 1 {
+        return Err(format!("other records changed: {} → {} records", before.len(), after.len()));
+    }
+    Ok(())
 }
 
 fn check_auth_store_delta(o: &Obs, bad: &mut impl FnMut(&str, String), how: &str) {
@@ -411,9 +464,16 @@ pub fn bases(tier: Tier) -> Vec<Case> {
             att.push(format!("make:client-att-{a}-{f}"));
         }
     }
+    att.push("make:u2f-fresh".into());
+    att.push("make:u2f-clash".into());
     let all: Vec<String> = MAKE.iter().chain(GET.iter()).map(|s| s.to_string()).chain(att).collect();
     for request in all.iter().map(|s| s.as_str()) {
         for store in ["ref", "ref+mutex", "ref+rwlock"] {
+            // (what the contract store does with a second record of the same id is its own affair:
+            // the clash runs on the shipped in-memory store only)
+            if request == "make:u2f-clash" {
+                continue;
+            }
             for plan in plans(tier) {
                 v.push(Case { request: request.to_string(), store: store.into(), plan, cancel_after: None });
             }
@@ -423,6 +483,9 @@ pub fn bases(tier: Tier) -> Vec<Case> {
             // holds one credential: keep the requests that make sense for them
             // (a registration into the occupied single slot replaces its content by design: afterwards
             // the slot holds the new credential and nothing else)
+            if request.starts_with("make:u2f") && store != "memory+mutex" {
+                continue;
+            }
             if store == "option+rwlock" && !matches!(request, "get:allow" | "get:prf" | "make:plain" | "make:counter" | "make:prf" | "make:client-credprops") {
                 continue;
             }
@@ -456,7 +519,7 @@ pub fn run(ctx: &Ctx) -> Result<Run, String> {
     }
     let mut run = Run::from_stats(
         "fault_enumeration",
-        "requests {make through the client with credProps (and prf), make through the client with every attestation preference (4) x attestationFormats shape (absent, empty, [packed], [none], [packed, none], [tpm, apple]), get through the client with prf; make: plain, exclude-list hit, exclude-list miss, non-rk, PRF, counter, PRF evaluation that fails late (verification-gated secrets, unverified ceremony), unsupported algorithm, pin-auth, verification unconfigured; get: allow list, no list, PRF, counter-less, PRF on a credential without secret, PRF that fails late, stored counter at 2^32-1 (with and without a late failure), pin-auth, two listed credentials, two listed credentials with counters of which the first fails after its counter write (both list orders), silent (up = uv = false, nothing reported) with and without PRF} x store stack {contract store, behind Arc<Mutex>, behind Arc<RwLock>} x fault plans over the faultable store calls (every single call x 6 status codes, every subset of >= 2 calls with KeyStoreFull; thorough: subsets x 6 codes and single faults x all 256 bytes) x cancellation after every k < polls-to-completion (every store call and the user step suspend once); plus cancellation-only runs on Arc<Mutex<MemoryStore>> and on an occupied Arc<RwLock<Option<Passkey>>> (assertions, and registrations - plain, with counter, with PRF, through the client - after which the slot holds the new credential and nothing else). Oracle: store snapshot before/after against a model that applies only the calls that returned Ok, call log, result. Every (request, store, plan, cancellation point) is a distinct case",
+        "requests {make through the client with credProps (and prf), make through the client with every attestation preference (4) x attestationFormats shape (absent, empty, [packed], [none], [packed, none], [tpm, apple]), get through the client with prf; make: plain, exclude-list hit, exclude-list miss, non-rk, PRF, counter, PRF evaluation that fails late (verification-gated secrets, unverified ceremony), unsupported algorithm, pin-auth, verification unconfigured; get: allow list, no list, PRF, counter-less, PRF on a credential without secret, PRF that fails late, stored counter at 2^32-1 (with and without a late failure), pin-auth, two listed credentials, two listed credentials with counters of which the first fails after its counter write (both list orders), silent (up = uv = false, nothing reported) with and without PRF} x store stack {contract store, behind Arc<Mutex>, behind Arc<RwLock>} x fault plans over the faultable store calls (every single call x 6 status codes, every subset of >= 2 calls with KeyStoreFull; thorough: subsets x 6 codes and single faults x all 256 bytes) x cancellation after every k < polls-to-completion (every store call and the user step suspend once); plus U2F registrations with a fresh key handle and with a key handle that is already the id of another relying party's credential, on Arc<Mutex<MemoryStore>> (an error leaves the store as it was; success leaves exactly one record under that id, bound to the application); plus cancellation-only runs on Arc<Mutex<MemoryStore>> and on an occupied Arc<RwLock<Option<Passkey>>> (assertions, and registrations - plain, with counter, with PRF, through the client - after which the slot holds the new credential and nothing else). Oracle: store snapshot before/after against a model that applies only the calls that returned Ok, call log, result. Every (request, store, plan, cancellation point) is a distinct case",
         true,
         stats,
     );
